@@ -92,7 +92,7 @@ def _ub_reports(stderr, jobs_by_id):
             if job is None and case and "." in case and case.split(".")[0] in jobs_by_id:
                 n = int(case.split(".")[1])
                 job = dict(jobs_by_id[case.split(".")[0]], **{"from": n, "upto": n + 1})
-            res.append({"job": job or {"id": case}, "kind": "ubsan", "sig": f"runtime error: {text} at {where}",
+            res.append({"job": job or {"id": case}, "case": case, "kind": "ubsan", "sig": f"runtime error: {text} at {where}",
                         "frames": frames, "report": [ln.strip()], "stderr_tail": "\n".join(lines[i:i + 12])})
     return res
 
